@@ -90,6 +90,10 @@ SqueezeBack(src, dst) ==        \* take the first slice of the repeated dimensio
          r == Take(a, [i \in 1..NDim(a) |-> IF i = 1 THEN IxSc(a.labs[1][1]) ELSE IxAll], "label", <<>>)
      IN r.ok /\ Put5(dst, r.val, FALSE, grp[src], warm[src]) /\ Record("first_of_n", Args(src, dst, "", <<>>))
 CopyOp(src, dst) == /\ Bound /\ live[src] /\ src # dst /\ Put5(dst, reg[src], TRUE, FreshGrp(dst), warm[src]) /\ Record("copy", Args(src, dst, "", <<>>))
+\* DimArray(reg[src], tag=.., mut=..): a new array built from another one with metadata keywords - same values, labels and dims,
+\* metadata id 9; the source keeps its own metadata.  (It shares the source's data and axes: never mutated in place afterwards.)
+CtorMeta(src, dst) == /\ Bound /\ live[src] /\ src # dst /\ reg[src].attrs # 9
+                      /\ Put5(dst, [reg[src] EXCEPT !.attrs = 9], FALSE, grp[src], warm[src]) /\ Record("ctor_meta", Args(src, dst, "", <<>>))
 \* through a Dataset: ds = Dataset(); ds['v'] = reg[src]; reg[dst] = ds['v']
 ViaDataset(src, dst) == /\ Bound /\ live[src] /\ Put5(dst, reg[src], FALSE, grp[src], warm[src]) /\ Record("via_dataset", Args(src, dst, "", <<>>))
 \* align(sort=True) of two registers; both are replaced by their aligned versions (order fixed by sort)
@@ -136,7 +140,7 @@ SetAttr(r) ==                 \* a.attrs['mut'].append(..) and a.units = ..  : m
 NewLabs == {<<6, 4, 2>>, <<4, 2, 6>>, <<2, 4, 8>>, <<8, 6>>, <<6, 2>>, <<8, 2, 4>>}
 NextAll ==
   \/ \E s \in Regs : \E d \in Regs : \E f \in {"list", "unsorted", "slice", "scalar"} : Index(s, d, f)
-  \/ \E s \in Regs : \E d \in Regs : TransposeOp(s, d) \/ SortOp(s, d) \/ CopyOp(s, d) \/ ViaDataset(s, d) \/ RepeatOp(s, d) \/ SqueezeBack(s, d)
+  \/ \E s \in Regs : \E d \in Regs : TransposeOp(s, d) \/ SortOp(s, d) \/ CopyOp(s, d) \/ CtorMeta(s, d) \/ ViaDataset(s, d) \/ RepeatOp(s, d) \/ SqueezeBack(s, d)
   \/ \E s \in Regs : \E d \in Regs : \E new \in NewLabs : ReindexOp(s, d, new)
   \/ \E a \in Regs : \E b \in Regs : \E j \in {"outer", "inner"} : AlignSorted(a, b, j)
   \/ \E a \in Regs : \E b \in Regs : \E k \in {"add", "align", "stack_align", "concat_align", "is_monotonic", "label_slice", "sum", "flatten", "repr"} : Query(k, a, b)
